@@ -5,10 +5,35 @@ HERE = os.path.dirname(os.path.dirname(os.path.abspath(__file__)))
 BASE = "cd /repo && cargo nextest run --workspace --no-fail-fast --tool-config-file pb:/w/lib/nextest.toml --profile pb --test-threads 8 --offline"
 TECH = "stateless explicit-path model checking of the real code: exhaustive deviation-bounded enumeration of environment answers (choice-vector explorer) against a reference model"
 # id -> (category, technique, text, note, design_ref)
+EXH = "exhaustive enumeration of finite input/configuration alphabets on the real code against independent oracles (choice-vector explorer, no sampling)"
 CHECKS = {
+ "C01": ("model_checking", TECH,
+         "Every source-readiness pattern of the real encoder (all message sequences/codecs/encodings/buffer settings in the alphabet) and every chunking of its output within the bound (all compositions for short identity streams, <= 2/3 cuts + Pending + empty frames otherwise, plus byte drip) fed to the real Streaming decoder; decoded messages must equal the originals, encoder bytes must be independent of readiness/batching, and an independent frame parser + decompressor must recover the serialisations.",
+         "Payload values: two byte patterns x sizes, not all bytes; chunkings beyond the cut bound only via drip; flate2/zstd trusted as reference.", "3/C01"),
+ "C02": ("model_checking", TECH,
+         "Generated client wired in-process to the generated server: all four shapes x request sequences x handler scripts (initial metadata, messages, every non-OK code with message/details/metadata menus, handler-level errors, echo/read-all/ignore modes); both bodies re-delivered under every chunking within the bound, sources answering Pending; the caller's and handler's views are compared with the script.",
+         "L1 (http-body level) only so far: hyper/h2 frame interleavings are represented by body chunkings; reserved metadata names belong to C08.", "3/C02"),
+ "C03": ("model_checking", TECH,
+         "EncodeBody for every message sequence x encoding x role x outcome (OK, source error, encoder failure, size limit) under every source-readiness pattern, polled to exhaustion, plus the captured http request/response of every C02 call case x compression configuration, judged by an independent frame parser/decompressor: POST, HTTP/2, path, content-type, te, exactly one grpc-status in the right place, nothing after the trailers, flags and compression as announced.",
+         "Judged on the http::Request/Response tonic hands to the transport; hyper/h2 serialisation trusted. Handler streams that yield after their first Err are outside the alphabet.", "3/C03"),
+ "C04": ("exploration", EXH,
+         "Every status in the stated alphabets (17 codes, per-byte-class message menu, all details of length <= 2 and every length mod 3, metadata maps incl. forged reserved names) round-trips through add_header/into_http -> from_header_map and the real client, with raw header bytes judged by hand-written percent/base64 decoders; every header map from the malformed-value menus is read without panic; every HTTP status 100..=599 and HTTP/2 error code is compared with tables transcribed from grpc/doc.",
+         "Small-scope exhaustiveness (one value per branch of the encoding set), not a proof; leading-zero grpc-status values may be read numerically or as UNKNOWN; h2 errors built from a Reason only.", "3/C04"),
+ "C05": ("exploration", EXH,
+         "Generated server with every ordered subset of {gzip,deflate,zstd} for send and for accept x a menu of grpc-accept-encoding / grpc-encoding header values (lists, spacing, unknown/upper-case/obs-text tokens) x compressed-flag/payload combinations x shapes, and the generated client with every send/accept configuration against scripted responses; announced encodings must be configured and offered, refusals UNIMPLEMENTED with the exact accept set, flag 1 without encoding INTERNAL.",
+         "Token matching uses the liberal reading (whitespace, ASCII case) so a stricter tonic never alarms; whether an eligible encoding must be used is left open.", "3/C05"),
+ "C06": ("model_checking", TECH,
+         "Decoder: limits {0,1,5,64,4 MiB} x wire lengths L-1/L/L+1 (identity and compressed) x position x bare prefixes declaring up to 2^32-1 under every chunking within the bound; OUT_OF_RANGE must come with no chunk requested beyond the one completing the prefix and (tracking allocator) no reservation of the declared length. Encoder: oversized item at every position under every readiness pattern and both batching regimes; every earlier frame must be delivered before the status (thorough adds the > 4 GiB branch).",
+         "Limits outside the menu are represented by these; allocation check applies to bare prefixes >= 1 MiB.", "3/C06"),
  "C07": ("model_checking", TECH,
          "Every chunking/Pending/empty-frame schedule with <= bound deviations (plus drip) of every hostile input in the stated alphabets is executed on the real Streaming decoder and compared with an independent longest-valid-prefix parser; first error must be final, no panic, no busy loop.",
-         "Inputs outside the alphabets (byte strings <= 7 over 6 values; single mutations of valid streams) are not covered; flate2/zstd/prost trusted as reference decoders.", "3/C07"),
+         "Inputs outside the alphabets (byte strings <= 5/7 over 6 values; single mutations of valid streams) are not covered; flate2/zstd/prost trusted as reference decoders.", "3/C07"),
+ "C17": ("model_checking", TECH,
+         "grpc-web response bodies from an independent encoder (0..2 message frames + trailers frame over a trailer-map menu, truncation at every byte, bad flag at every frame start) delivered through GrpcWebClientService under every chunking (all compositions for bodies <= 21/26 bytes, else <= bound cuts/Pending, plus drip); data and the full trailer multimap must be recovered, malformed bodies must error, no busy loop; a real generated client on top must see the server's status.",
+         "Binary grpc-web only (the client layer never requests text); a body cut exactly at a frame boundary is not judged.", "3/C17"),
+ "C20": ("exploration", EXH,
+         "Every subset of the ten standard details (set API) and every sequence of length <= 3 (vec API) over per-kind value menus is attached to a status, sent through add_header/from_header_map and compared field-wise via all StatusExt getters against reference values; the wire blob is decoded by a hand-written protobuf reader (embedded code/message, type URLs, order); foreign-encoded, mutated, truncated and arbitrary short blobs must never panic.",
+         "Field values outside the menus are not covered; wire order of set-API details unconstrained; prost is the decoder under test.", "3/C20"),
 }
 PENDING = {}
 def main():
